@@ -1,6 +1,7 @@
 package props
 
 import (
+	"time"
 	"bufio"
 	"bytes"
 	"compress/flate"
@@ -162,11 +163,23 @@ type ReaderSpec struct {
 	// delivers these chunks.  Not part of the case line: the model latches the first error and never
 	// touches the transport again (C05_errors_are_permanent), so its prediction is the one for Chunks+Fault.
 	Resume []B `json:"resume,omitempty"`
+	// StaleWDL: the application set a write deadline that has long passed before it starts reading
+	// (the replies the reader writes - pongs, close echoes, 1002/1009 closes - use their own deadline)
+	StaleWDL bool `json:"stale_write_deadline,omitempty"`
+	// HTimeout: failing handlers return an error that is a net.Error with Timeout() == true
+	HTimeout bool `json:"handler_timeout_errors,omitempty"`
 }
 
 type hErr struct{ id int }
 
 func (e hErr) Error() string { return "verif: handler error " + strconv.Itoa(e.id) }
+
+// the same, but a net.Error that calls itself a timeout (what a handler returns when its own
+// WriteControl timed out)
+type hErrT struct{ hErr }
+
+func (e hErrT) Timeout() bool   { return true }
+func (e hErrT) Temporary() bool { return true }
 
 var readAllCaps []int
 
@@ -187,6 +200,9 @@ func tapeErr(t *core.Tape, err error) {
 		t.N(2).N(e.Code).Str(e.Text)
 		return
 	case hErr:
+		t.N(8).N(e.id)
+		return
+	case hErrT:
 		t.N(8).N(e.id)
 		return
 	case flate.CorruptInputError, flate.InternalError:
@@ -324,9 +340,15 @@ func readerExec(s core.Spec) core.Exec {
 		i := hcount
 		hcount++
 		if fails[i] {
+			if sp.HTimeout {
+				return hErrT{hErr{i}}
+			}
 			return hErr{i}
 		}
 		return nil
+	}
+	if sp.StaleWDL {
+		c.SetWriteDeadline(time.Unix(1000, 0))
 	}
 	if sp.Custom {
 		c.SetPingHandler(func(p string) error { hlog = append(hlog, hrec{0, opidx, 0, []byte(p)}); return hres() })
